@@ -214,6 +214,7 @@ package jobcontroller
 //@            (let t = jobtasks.taskCached(rj, rj.Status.Tasks[k].Name) in jobtasks.delReq[jobtasks.taskName(t)] || (jobtasks.taskDelSet(t) && jobtasks.taskDelNs(t) < clock)))
 //@   ensures [C13] never-forced: forall n string :: jobtasks.forceReq[n] ==> old(jobtasks.forceReq[n])
 //@   ensures [C13] cached-job-untouched: *rj == old(*rj)
+//@   ensures [C13] returns-a-job-unless-it-fails: result1 == nil ==> result0 != nil && result0.DeletionTimestamp == rj.DeletionTimestamp && result0.Name == rj.Name
 
 // ---- task creation and adoption (C09) ----------------------------------------------------------------------------------------
 
@@ -315,3 +316,38 @@ package jobcontroller
 //@   ensures [C08] never-before-the-retry-delay: forall i int :: {jobtasks.tcIndex[i]} old(jobtasks.tcN) <= i && i < jobtasks.tcN ==>
 //@        parallel.latestFin(rj.Status.Tasks, parallel.hashOf(jobtasks.tcIndex[i]), len(rj.Status.Tasks)) + execution.retryDelaySeconds(rj) * 1000000000 <= clock
 //@   ensures [C08] log-append-only: jobtasks.tcN >= old(jobtasks.tcN)
+
+// ---- one reconcile pass (C08, C12, C13) -----------------------------------------------------------------------------------------
+// syncJobTasks is the fixed sequence list tasks -> syncCreateTasks -> updateTaskRefStatus -> handlePendingTasks -> handleKillJob ->
+// handleForceDeleteKillingTasks -> updateTaskRefStatus; each step has its own contract. The sequence itself is ASSUMED here
+// (temporarily); taskSyncN counts its executions so that the gate in front of it can be stated.
+//@ ghost var taskSyncN Int
+//@ extern func Reconciler.syncJobTasks
+//@   params w, ctx, rj, cfg, trace
+//@   modifies taskSyncN, clock, wakeN, wakeKey, wakeAfter, jobtasks.delReq, jobtasks.forceReq, jobtasks.tcN, jobtasks.tcJob, jobtasks.tcRetry, jobtasks.tcIndex, jobtasks.tcOK, jobtasks.tcErr, jobtasks.tcTask
+//@   ensures taskSyncN == old(taskSyncN) + 1 && clock >= old(clock)
+//@   ensures result0 != nil && result0.Name == rj.Name && result0.Namespace == rj.Namespace && result0.UID == rj.UID && result0.Spec == rj.Spec
+//@        && execution.sameStrs(result0.Finalizers, rj.Finalizers) && result0.DeletionTimestamp == rj.DeletionTimestamp
+//@   ensures result1 != nil ==> result0 == rj
+
+//@ func Reconciler.syncJobStatusFromTaskRefs
+//@   tags C11, C13
+//@   requires w != nil && rj != nil && rj.Spec.Template != nil
+//@   modifies clock, wakeN, wakeKey, wakeAfter
+//@   ensures [C11] error-returns-input: result1 != nil ==> result0 == rj
+//@   ensures [C11,C13] identity-kept: result1 == nil ==> result0 != nil && result0.Name == rj.Name && result0.UID == rj.UID && result0.Spec == rj.Spec
+//@        && execution.sameStrs(result0.Finalizers, rj.Finalizers) && result0.DeletionTimestamp == rj.DeletionTimestamp
+//@   ensures [C11] phase-terminal-iff-finished: result1 == nil ==> (result0.Status.Phase.IsTerminal() <==> result0.Status.Condition.Finished != nil)
+//@   ensures clock >= old(clock)
+
+//@ func Reconciler.sync
+//@   tags C08, C12, C13
+//@   requires w != nil && w.client != nil && rj != nil && cfg != nil
+//@   assumes template-was-defaulted-by-the-mutating-webhook: rj.Spec.Template != nil
+//@   modifies taskSyncN, clock, wakeN, wakeKey, wakeAfter, jobtasks.delReq, jobtasks.forceReq, jobtasks.tcN, jobtasks.tcJob, jobtasks.tcRetry, jobtasks.tcIndex, jobtasks.tcOK, jobtasks.tcErr, jobtasks.tcTask, jwN, jwKind, jwObj, jwOK, jwName
+//@   ensures [C08,C12] tasks-are-reconciled-iff-started-and-not-deleted: taskSyncN == old(taskSyncN) + ((job.IsStarted(rj) && !deleting(rj)) ? 1 : 0)
+//@   ensures [C08] no-task-created-for-an-unstarted-or-deleted-job: !(job.IsStarted(rj) && !deleting(rj)) ==> jobtasks.tcN == old(jobtasks.tcN)
+//@   ensures [C13] ttl-cleanup-is-considered-on-every-pass: result1 == nil && !deleting(result0) && result0.Status.Condition.Finished != nil
+//@        && finishNs(result0) + job.ttlSeconds(result0, cfg) * 1000000000 <= old(clock)
+//@        ==> (exists i int :: old(jwN) <= i && i < jwN && jwKind[i] == 4 && jwName[i] == result0.Name)
+//@   ensures [C13] always-returns-a-job: result0 != nil
